@@ -312,11 +312,13 @@ const (
 	oddHandlerNil             // handler of E<n> returns (nil, "", nil)
 	oddOptionalGroup          // E(\d+)(x)? : an unmatched optional group arrives as ""
 	oddNoGroupsDisplay        // stream parser for C<a>T<b> that returns no Groups but a Display text, handler returns a detail text
+	oddAlternation            // regex with a top-level alternation ZZ(\d+)|QQ(\d+): either alternative matches only at the operand start
 	oddKinds
 )
 
 var c17OddPrograms = []string{
 	"1", "x", "x + 1", "E5", "E5 + 1", "1 + E5", "[E5, E5]", "xf(E5)", "`{E5}`", "func g(){ E5 }; g()", "y = E5; y", "E5x", "E5x + 1", "E", "Ex", "Z", "ZZ + 1", "Q", "Q!", "1 + Q!", "[Q!]", "Q! + 1", "`{Q!}`", "func g(){ Q! }; g()",
+	"QQ7", "1 + QQ7", "ZZ1 + QQ2", "'QQ7'", "1 // QQ7", "x + 'a QQ7 b'", "`{1} QQ7`", "1 + 'ZZ3' + QQ7", "y = 'QQ7'; y", "xQQ7", "[1, 'QQ7', QQ7]", "1 +\nQQ7", "'ZZ1' // QQ2",
 	"C1T2", "C1T2 + 1", "1 + C1T2", "[C1T2]", "C1T", "C1", "2d6 + E5", "E5 ? 1 : 2", "0 ? E5 : 2", "1 ? 2 : E5", "&q = E5; q + q", "i = 0; while i < 2 { i = i + 1; E5 }", "^stA:E5", "^stA+E5", "E5\n+ 1", "E5; 7", "E5 E5", "E5E5",
 }
 
@@ -370,6 +372,12 @@ func c17OddRun(c c17Case, res *harn.Result, viol func(sig, what string), newVM f
 		})
 	case oddOptionalGroup:
 		_ = vm.RegCustomDice(`E(\d+)(x)?`, func(ctx *ds.Context, groups []string, payload any) (*ds.VMValue, string, error) {
+			calls++
+			seenGroups = append(seenGroups, append([]string{}, groups...))
+			return ds.NewIntVal(5), "", nil
+		})
+	case oddAlternation:
+		_ = vm.RegCustomDice(`ZZ(\d+)|QQ(\d+)`, func(ctx *ds.Context, groups []string, payload any) (*ds.VMValue, string, error) {
 			calls++
 			seenGroups = append(seenGroups, append([]string{}, groups...))
 			return ds.NewIntVal(5), "", nil
@@ -436,6 +444,20 @@ func c17OddRun(c c17Case, res *harn.Result, viol func(sig, what string), newVM f
 			if len(g) != 3 || g[1] != "5" || (g[2] != "" && g[2] != "x") || g[0] != "E5"+g[2] {
 				viol("C17:groups", fmt.Sprintf("program %q: groups %q for the pattern E(\\d+)(x)?", c.Src, g))
 			}
+		}
+	case oddAlternation:
+		// occurrences at an operand start (outside string literals, template text and comments) are the only ones that act
+		want := map[string]int{"QQ7": 1, "1 + QQ7": 1, "ZZ1 + QQ2": 2, "1 + 'ZZ3' + QQ7": 1, "[1, 'QQ7', QQ7]": 1, "1 +\nQQ7": 1}[c.Src]
+		if got.err == "" && calls != want {
+			viol("C17:handler-call-count", fmt.Sprintf("program %q with the pattern ZZ(\\d+)|QQ(\\d+): handler ran %d times, %d operands start with a match", c.Src, calls, want))
+		}
+		for _, g := range seenGroups {
+			if len(g) != 3 || !(g[0] == "ZZ"+g[1] && g[2] == "" || g[0] == "QQ"+g[2] && g[1] == "") || !strings.Contains(c.Src, g[0]) {
+				viol("C17:groups", fmt.Sprintf("program %q: groups %q are not the text of one alternative", c.Src, g))
+			}
+		}
+		if want == 0 && !same {
+			viol("C17:odd-extension-not-transparent:8", fmt.Sprintf("program %q has no operand that starts with a match: %+v vs %+v", c.Src, got, base))
 		}
 	case oddNoGroupsDisplay:
 		for _, g := range seenGroups {
